@@ -26,6 +26,8 @@ type Summaries struct {
 	Pure  map[*types.Func]bool
 	reach map[string]map[string]bool
 	curFresh map[types.Object]bool
+	// hitFresh: the fresh locals an external mutator wrote through during the last ExternalWrites call
+	hitFresh []types.Object
 }
 
 func sigKey(t types.Type) string {
@@ -509,6 +511,64 @@ func freshLocals(info *types.Info, body ast.Node) map[types.Object]bool {
 	return cand
 }
 
+// ownedFresh narrows freshLocals to the variables whose storage no other local
+// term can reach: never copied to another variable, stored in a composite
+// value or appended. A write through such a variable by an external mutator
+// only invalidates facts rooted at the variable itself.
+func ownedFresh(info *types.Info, bodies []*ast.BlockStmt) map[types.Object]bool {
+	out := map[types.Object]bool{}
+	for _, b := range bodies {
+		for o := range freshLocals(info, b) {
+			out[o] = true
+		}
+	}
+	drop := func(e ast.Expr) {
+		if id, ok := ast.Unparen(e).(*ast.Ident); ok {
+			if o := info.ObjectOf(id); o != nil {
+				delete(out, o)
+			}
+		}
+	}
+	for _, b := range bodies {
+		ast.Inspect(b, func(n ast.Node) bool {
+			switch x := n.(type) {
+			case *ast.AssignStmt:
+				for _, r := range x.Rhs {
+					drop(r)
+				}
+			case *ast.ValueSpec:
+				for _, r := range x.Values {
+					drop(r)
+				}
+			case *ast.CompositeLit:
+				for _, el := range x.Elts {
+					if kv, ok := el.(*ast.KeyValueExpr); ok {
+						drop(kv.Value)
+					} else {
+						drop(el)
+					}
+				}
+			case *ast.CallExpr:
+				if id, ok := ast.Unparen(x.Fun).(*ast.Ident); ok {
+					if b, ok := info.ObjectOf(id).(*types.Builtin); ok && b.Name() == "append" {
+						for _, a := range x.Args {
+							drop(a)
+						}
+					}
+				}
+			case *ast.SendStmt:
+				drop(x.Value)
+			case *ast.UnaryExpr:
+				if x.Op == token.AND {
+					drop(x.X)
+				}
+			}
+			return true
+		})
+	}
+	return out
+}
+
 func rootObj(info *types.Info, e ast.Expr) types.Object {
 	for {
 		switch x := ast.Unparen(e).(type) {
@@ -621,6 +681,7 @@ func (s *Summaries) ExternalWrites(info *types.Info, call *ast.CallExpr) map[str
 		e = ast.Unparen(e)
 		if s.curFresh != nil {
 			if o := rootObj(info, e); o != nil && s.curFresh[o] {
+				s.hitFresh = append(s.hitFresh, o)
 				return
 			}
 		}
